@@ -11,7 +11,7 @@ KNOWN = os.path.join(VERIF, "known-findings.txt")
 class Job:
     def __init__(self, name, src, defines=(), mode="real", tiers=("quick", "thorough"), budget_s=120, timeout_ms=20000,
                  procs=16, fix=None, desc="", env=None, replay_tol=1e-9, spurious_possible=False, thorough_defines=None,
-                 thorough_budget_s=None, min_paths=1):
+                 thorough_budget_s=None, min_paths=1, background=False):
         self.name, self.src, self.defines, self.mode, self.tiers = name, src, list(defines), mode, tiers
         self.budget_s, self.timeout_ms, self.procs, self.fix, self.desc = budget_s, timeout_ms, procs, fix, desc
         self.env = env or {}
@@ -20,6 +20,7 @@ class Job:
         self.thorough_defines = thorough_defines
         self.thorough_budget_s = thorough_budget_s
         self.min_paths = min_paths
+        self.background = background      # few-path job dominated by single long solver queries: runs next to the sequential chain of the other jobs
 
 
 def load_known(pid):
@@ -146,9 +147,12 @@ def check_property(pid, spec, tier):
     known, fixed = load_known(pid)
     jobs = [j for j in spec.JOBS if tier in j.tiers]
     results = []
-    # jobs run one after the other; each uses up to job.procs processes
-    for j in jobs:
-        results.append(run_job(pid, j, tier, h))
+    # jobs run one after the other, each using up to job.procs processes; 'background' jobs (a handful of paths, long single queries) run beside that chain
+    import concurrent.futures
+    with concurrent.futures.ThreadPoolExecutor(max_workers=4) as pool:
+        futs = {j.name: pool.submit(run_job, pid, j, tier, h) for j in jobs if j.background}
+        for j in jobs:
+            results.append(futs[j.name].result() if j.background else run_job(pid, j, tier, h))
     violations, known_hits, inconclusive = [], [], []
     cov_jobs, samples = [], []
     tot = dict(div0_pruned=0, paths_ok=0, fail=0, abort=0, cut=0, crash=0, pruned=0, solver_calls=0, q_sat=0, q_unsat=0, by_norm=0, asserts=0, unknown=0, solver_s=0.0, forks=0)
